@@ -276,7 +276,10 @@ def check_property(pid, tier, seed):
         print('VIOLATION property=%s replay=%s no-failing-input-found' % (pid, path))
         rc = 1
     ev['violations'] = len(monitor_hits) + (1 if (mismatches or proof_problem) and not monitor_hits else 0)
-    ev['assumptions'] = list(prop.assumptions)
+    from .levels import LEVELS
+    ev['assumptions'] = list(prop.assumptions) + ([LEVELS[pid][1]] if pid in LEVELS else []) + [
+        'the hand-written model describes the code: checked by the differential correspondence of this run (see coverage), not proved',
+        'transport behaviour is any behaviour allowed by the Read/Write contracts (the oracle lists); a transport returning more bytes than the buffer holds is excluded']
     ev['wall_s'] = round(time.time() - t0, 2)
     cov['correspondence_mismatches'] = len(mismatches)
     cov['known_findings_seen'] = sorted(seen_known)
